@@ -128,3 +128,55 @@ theorem cmap_perm {d : CIDict κ ν} (h : Inv lower d) :
     exact mem_of_get? this
 
 end Upnp.C16
+
+namespace Upnp.C16
+open Upnp PyDict CIDict
+variable {κ ν : Type} [DecidableEq κ] (lower : κ → κ)
+
+omit [DecidableEq κ] in
+theorem filterMap_congr' {α β : Type} {f g : α → Option β} {l : List α} (h : ∀ a ∈ l, f a = g a) :
+    l.filterMap f = l.filterMap g := by
+  induction l with
+  | nil => rfl
+  | cons a r ih =>
+    simp only [List.filterMap_cons, h a List.mem_cons_self]
+    rw [ih (fun x hx => h x (List.mem_cons_of_mem _ hx))]
+
+theorem filterMap_get?_self (l : PyDict κ ν) (h : (keys l).Nodup) :
+    (keys l).filterMap (fun k => (get? l k).map fun v => (k, v)) = l := by
+  induction l with
+  | nil => simp [keys]
+  | cons p r ih =>
+    obtain ⟨k, v⟩ := p
+    simp only [keys, List.map_cons, List.nodup_cons] at h
+    have ih' := ih (by simpa [keys] using h.2)
+    have hstep : (keys r).filterMap (fun k' => (get? ((k, v) :: r) k').map fun v' => (k', v'))
+        = (keys r).filterMap (fun k' => (get? r k').map fun v' => (k', v')) := by
+      apply filterMap_congr'
+      intro k' hk'
+      have hne : k ≠ k' := by
+        intro e; subst e; exact h.1 (by simpa [keys] using hk')
+      simp [get?, hne]
+    show ((k :: keys r).filterMap fun k' => (get? ((k, v) :: r) k').map fun v' => (k', v')) = (k, v) :: r
+    simp only [List.filterMap_cons, get?, if_true, Option.map_some]
+    rw [show (List.filterMap (fun k' => Option.map (fun v' => (k', v')) (if k = k' then some v else get? r k')) (keys r))
+          = (keys r).filterMap (fun k' => (get? ((k, v) :: r) k').map fun v' => (k', v')) from rfl, hstep, ih']
+
+/-- a stored spelling looks itself up in `data` -/
+theorem getitem_stored {d : CIDict κ ν} (h : Inv lower d) {k : κ} (hk : k ∈ keys d.data) :
+    getitem lower d k = get? d.data k := by
+  unfold getitem
+  have := (h.cmapSpec (lower k) k).mpr ⟨(get?_isSome_iff _ _).mpr hk, rfl⟩
+  rw [this]; rfl
+
+/-- the inherited `items()` lists exactly the underlying dict: (current spelling, value) pairs in
+    iteration order -/
+theorem mixinItems_eq_data {d : CIDict κ ν} (h : Inv lower d) : mixinItems lower d = d.data := by
+  unfold mixinItems iter
+  have : (keys d.data).filterMap (fun k => (getitem lower d k).map fun v => (k, v))
+       = (keys d.data).filterMap (fun k => (get? d.data k).map fun v => (k, v)) := by
+    apply filterMap_congr'
+    intro k hk; rw [getitem_stored lower h hk]
+  rw [this, filterMap_get?_self _ h.dataNodup]
+
+end Upnp.C16
